@@ -336,7 +336,7 @@ def specs(tier):
     p2, p3, g2, g3c, d3 = ["psd", 2, False], ["psd", 3, True], ["gen", 2, False], ["gen", 3, True], ["Diagonal", 3, False]
     S += [
         ["BlockDiag", p2, d3, [2, 1]], ["BlockDiag", g2, g3c, [1, 2]], ["BlockDiag", p3, ["Identity", 2, False], [1, 1]],
-        ["Transpose", g3c], ["Transpose", ["gen", 3, False]], ["Adjoint", g3c], ["Adjoint", p3], ["Transpose", p2],
+        ["Transpose", g3c], ["Transpose", ["gen", 3, False]], ["Adjoint", g3c], ["Adjoint", p3], ["Adjoint", ["gen", 3, False]], ["Transpose", p2],
         ["KronSum", [p2, p3]], ["KronSum", [p2, d3, ["psd", 2, True]]], ["KronSum", [g2, d3]],
         ["Kronecker", [p2, p3]], ["Kronecker", [p2, d3, ["psd", 2, True]]], ["Kronecker", [g2, ["Diagonal", 2, True]]],
         # depth 2
